@@ -41,7 +41,7 @@ func newSourceSplitterShardFromKinesis(shard kinesistypes.Shard) SourceSplitterS
 }
 
 func newSourceSplitterShardFromProto(shard *kinesispb.SourceSplitterShard) SourceSplitterShard {
-	var start, end *big.Int
+	start, end := new(big.Int), new(big.Int)
 	start.SetBytes(shard.HashKeyRange.Start)
 	end.SetBytes(shard.HashKeyRange.End)
 
